@@ -12,7 +12,8 @@ appears where an operation allocates.
 * §2 `set p v ; set p v = set p v` — proved for existing plain bindings, fresh single segments and
   attrpath leaves; the unrestricted statement is **false** when `v` is an identifier that names a
   sibling: the second `set` goes *through* the reference it has just written (`cex_set_set_ident`);
-* §3 `set p v ; rm p = id` for a fresh single segment (append-then-erase-last), up to `next`;
+* §3 `set p v ; rm p = id` for a fresh single segment (append-then-erase-last), up to `next`; and
+  `rm p ; set p v₀`: the name is rebound (last, without its trivia) — the tree, not the document;
 * §4 `set p v ; set q w = set q w ; set p v` for distinct existing plain bindings; false when a
   current value is a reference to the other binding (`cex_set_comm_ident`);
 * §5 scoped `set @k v ; rm @k` on a document without let layers: the layer is created, then pruned.
@@ -105,6 +106,15 @@ theorem cex_set_set_ident : ¬ set_set_idem_full := by
   revert this
   decide
 
+/-- The general statement once the identifier case is taken out: **not proved** (stated so that the
+    gap is explicit). It needs, beyond the three cases proved below, the stability of
+    `resolveParentWalk` / `setAttrpathWalk` / `resolveIdent` under the first `set`'s writes, for which
+    the unique-identity invariant of parser-built documents has to be carried through nested sets. -/
+def set_set_idem_general : Prop :=
+  ∀ (d : Doc) (p : Text) (v : Node), d.Fresh → v.isIdent = false →
+    (setValue p (.one v) d).1 = .ok () →
+    ∃ n, (setValue p (.one v) (setValue p (.one v) d).2).2 = { (setValue p (.one v) d).2 with next := n }
+
 /-- PARTIAL (existing plain binding): old and new value are not identifier references. -/
 theorem set_set_idem_existing (d : Doc) (p k : Text) (v : Node) (bid : Nat) (nm : Text) (ne : Bool)
     (val : Node) (bf af : Payload)
@@ -157,6 +167,29 @@ theorem set_rm_restores (d : Doc) (p k : Text) (v : Node) (sid : Nat)
     (hfresh : d.hasBind d.next = false) :
     removeValue p (setValue p (.one v) d).2 = (.ok (), { d with next := d.next + 1 }) :=
   set_rm_restores_fresh d p k v sid hnt hsp hf hs hr hb hfresh
+
+/-- `rm k` then `set k val` with the removed value (DESIGN: "restores the tree", not the document):
+    the name is bound to the value again — by a NEW Binding object at the end of `values` (and of a
+    non-empty `attrpath_order`), with empty trivia; every other binding is where it was. `huniq`: no
+    second binding spelled `k` is left (decidable; else the second `set` would overwrite that one). -/
+theorem rm_set_rebinds (d : Doc) (p k : Text) (bid : Nat) (nm : Text) (ne : Bool)
+    (val : Node) (bf af : Payload) (sid : Nat) (vs o : List Node) (m r : Bool)
+    (hnt : d.noTarget = none) (hsp : splitScopeNpath p = .ok none)
+    (hf : formatNPath currentAnchor p = .ok [k])
+    (ht : d.target = .set sid vs o m r)
+    (hr : findAttrpathRoot vs k = none)
+    (hb : findBinding vs k = some (.bind bid nm ne val bf af))
+    (hone : d.sidElsewhere sid = false)
+    (huniq : findBinding (vs.eraseP fun n => n.bindId? == some bid) k = none) :
+    setValue p (.one val) (removeValue p d).2 =
+      (.ok (), { d with
+        target := .set sid ((vs.eraseP fun n => n.bindId? == some bid) ++ [.bind d.next k false val [] []])
+          (if (if o.isEmpty then o else o.eraseP fun n => n.isBind && n.bindId? == some bid).isEmpty
+           then (if o.isEmpty then o else o.eraseP fun n => n.isBind && n.bindId? == some bid)
+           else (if o.isEmpty then o else o.eraseP fun n => n.isBind && n.bindId? == some bid) ++
+             [.bind d.next k false val [] []]) m r
+        next := d.next + 1 }) :=
+  Nima.rm_set_rebinds d p k bid nm ne val bf af sid vs o m r hnt hsp hf ht hr hb hone huniq
 
 /-! ## 4. `set`s on distinct existing bindings commute -/
 
@@ -338,6 +371,13 @@ example : setValue "s.q".toList (.one (.ident "a".toList)) (setValue "s.q".toLis
 example : removeValue "\"z z\"".toList (setValue "\"z z\"".toList (.one (.atom "7".toList)) exDoc).2 =
     (.ok (), { exDoc with next := 14 }) :=
   set_rm_restores exDoc _ "\"z z\"".toList _ 1 rfl (by decide) (by decide) rfl rfl rfl (by decide)
+
+/-- rm then set of the removed value: `b = 2` comes back, last -/
+example : ∃ d', setValue "b".toList (.one (.atom "2".toList)) (removeValue "b".toList exDoc).2 = (.ok (), d') ∧
+    d'.target.setValues.length = 4 ∧
+    (d'.target.setValues.getLast?.bind Node.bindName?) = some "b".toList :=
+  ⟨_, rm_set_rebinds exDoc _ "b".toList 3 _ _ _ _ _ 1 _ _ _ _ rfl (by decide) (by decide) rfl rfl rfl
+    (by decide) rfl, rfl, rfl⟩
 
 /-- commutation, `a` and `b` -/
 example : setValue "b".toList (.one (.atom "8".toList)) (setValue "a".toList (.one (.atom "7".toList)) exDoc).2 =
